@@ -2370,25 +2370,34 @@ class DiskObjectStore(PackBasedObjectStore):
             )
 
         fd, path = tempfile.mkstemp(dir=self.path, prefix="tmp_pack_")
-        with os.fdopen(fd, "w+b") as f:
-            os.chmod(path, PACK_MODE)
-            indexer = PackIndexer(
-                f,
-                self.object_format.hash_func,
-                resolve_ext_ref=self.get_raw,
-            )
-            copier = PackStreamCopier(
-                self.object_format.hash_func,
-                read_all,
-                read_some,
-                f,
-                delta_iter=indexer,  # type: ignore[arg-type]
-            )
-            copier.verify(progress=progress)
-            entries, ext_refs = self._index_pack(
-                indexer, len(copier), progress=progress
-            )
-            return self._complete_pack(f, path, entries, ext_refs, progress=progress)
+        try:
+            with os.fdopen(fd, "w+b") as f:
+                os.chmod(path, PACK_MODE)
+                indexer = PackIndexer(
+                    f,
+                    self.object_format.hash_func,
+                    resolve_ext_ref=self.get_raw,
+                )
+                copier = PackStreamCopier(
+                    self.object_format.hash_func,
+                    read_all,
+                    read_some,
+                    f,
+                    delta_iter=indexer,  # type: ignore[arg-type]
+                )
+                copier.verify(progress=progress)
+                entries, ext_refs = self._index_pack(
+                    indexer, len(copier), progress=progress
+                )
+                return self._complete_pack(
+                    f, path, entries, ext_refs, progress=progress
+                )
+        except BaseException:
+            # a refused stream leaves nothing behind (the file is gone
+            # already once _complete_pack has moved it into place)
+            with suppress(OSError):
+                os.remove(path)
+            raise
 
     def add_pack(
         self,
